@@ -34,25 +34,25 @@ type Ev struct {
 
 // OptSpec is the serialisable server configuration of a scenario.
 type OptSpec struct {
-	PingIntervalMs   int         `json:"pi"`
-	PingTimeoutMs    int         `json:"pt"`
-	UpgradeTimeoutMs int         `json:"ut"`
-	MaxBuf           int64       `json:"maxbuf"`
-	Transports       []string    `json:"transports"`
-	AllowUpgrades    bool        `json:"allowUpgrades"`
-	AllowEIO3        bool        `json:"eio3"`
-	NoCompression    bool        `json:"nocomp,omitempty"`
-	CompThreshold    int         `json:"compthr"`
-	PMD              bool        `json:"pmd,omitempty"` // per-message deflate on
-	PMDThreshold     int         `json:"pmdthr,omitempty"`
-	InitialPacket    string      `json:"initial,omitempty"`
+	PingIntervalMs   int      `json:"pi"`
+	PingTimeoutMs    int      `json:"pt"`
+	UpgradeTimeoutMs int      `json:"ut"`
+	MaxBuf           int64    `json:"maxbuf"`
+	Transports       []string `json:"transports"`
+	AllowUpgrades    bool     `json:"allowUpgrades"`
+	AllowEIO3        bool     `json:"eio3"`
+	NoCompression    bool     `json:"nocomp,omitempty"`
+	CompThreshold    int      `json:"compthr"`
+	PMD              bool     `json:"pmd,omitempty"` // per-message deflate on
+	PMDThreshold     int      `json:"pmdthr,omitempty"`
+	InitialPacket    string   `json:"initial,omitempty"`
 	// Primer: before the server under observation is built, another server with these transports lives in the
 	// same process and serves one polling handshake (servers must not share what they advertise)
-	Primer []string `json:"primer,omitempty"`
-	Cookie           *CookieSpec `json:"cookie,omitempty"`
-	Cors             *CorsSpec   `json:"cors,omitempty"`
-	AllowRequest     string      `json:"allowRequest,omitempty"` // "", "ok", "deny:<text>", "deny-origin:<origin>"
-	FailMiddleware   bool        `json:"failMw,omitempty"`
+	Primer         []string    `json:"primer,omitempty"`
+	Cookie         *CookieSpec `json:"cookie,omitempty"`
+	Cors           *CorsSpec   `json:"cors,omitempty"`
+	AllowRequest   string      `json:"allowRequest,omitempty"` // "", "ok", "deny:<text>", "deny-origin:<origin>"
+	FailMiddleware bool        `json:"failMw,omitempty"`
 }
 
 type CookieSpec struct {
@@ -187,7 +187,12 @@ func (w *World) violate(prop, rule, sigctx, msg string) {
 	w.mu.Unlock()
 }
 
-func sockState(s engine.Socket) string {
+func sockState(s engine.Socket) (st string) {
+	simrt.Atomic(func() { st = sockStateRaw(s) })
+	return st
+}
+
+func sockStateRaw(s engine.Socket) string {
 	tn := "-"
 	if t := s.Transport(); t != nil {
 		tn = t.Name()
@@ -315,7 +320,9 @@ func (w *World) startServer(o *OptSpec, att *AttachSpec) {
 		w.SockIDs[alias] = sid
 		w.AllIDs = append(w.AllIDs, sid)
 		w.mu.Unlock()
-		w.recx(Ev{Sess: alias, Kind: "connection", S: sock.Id(), St: sockState(sock), N: int64(sock.Protocol())})
+		simrt.Atomic(func() {
+			w.recx(Ev{Sess: alias, Kind: "connection", S: sock.Id(), N: int64(sock.Protocol()), St: sockStateRaw(sock)})
+		})
 		w.attachSocket(alias, sock)
 		// listeners registered from here on see everything; events that raced with the registration may be missed
 		w.recx(Ev{Sess: alias, Kind: "app-attached"})
@@ -412,7 +419,20 @@ func packetString(p *packet.Packet) string {
 func (w *World) attachSocket(alias string, sock engine.Socket) {
 	ev := func(kind string) func(...any) {
 		return func(a ...any) {
-			e := Ev{Sess: alias, Kind: kind, St: sockState(sock)}
+			simrt.Atomic(func() { w.listenerEvent(alias, kind, sock, a) })
+			w.reentrant(alias, sock, kind)
+		}
+	}
+	for _, k := range []string{"packet", "packetCreate", "message", "heartbeat", "upgrading", "upgrade", "flush", "drain", "close", "error"} {
+		sock.On(types.EventName(k), ev(k))
+	}
+}
+
+// listenerEvent samples the session and records the event in one step (called inside simrt.Atomic).
+func (w *World) listenerEvent(alias, kind string, sock engine.Socket, a []any) Ev {
+	{
+		{
+			e := Ev{Sess: alias, Kind: kind, St: sockStateRaw(sock)}
 			switch kind {
 			case "close":
 				if len(a) > 0 {
@@ -435,11 +455,8 @@ func (w *World) attachSocket(alias string, sock engine.Socket) {
 				}
 			}
 			w.recx(e)
-			w.reentrant(alias, sock, kind)
+			return e
 		}
-	}
-	for _, k := range []string{"packet", "packetCreate", "message", "heartbeat", "upgrading", "upgrade", "flush", "drain", "close", "error"} {
-		sock.On(types.EventName(k), ev(k))
 	}
 }
 
